@@ -57,6 +57,20 @@ fn main() {
         "C14" => checks::misc::c14(&ctx),
         "C15" => checks::misc::c15(&ctx),
         "C19" => checks::schema::c19(&ctx),
+        "C08" => checks::fieldvalue::c08(&ctx),
+        "C16" => checks::serial::c16(&ctx),
+        "C18" => checks::decode::c18(&ctx),
+        #[cfg(feature = "hooks")]
+        "C06" => checks::lattice::c06(&ctx),
+        #[cfg(feature = "hooks")]
+        "C17" => checks::lattice::c17(&ctx),
+        #[cfg(feature = "hooks")]
+        "C07" => checks::filters::c07(&ctx),
+        #[cfg(not(feature = "hooks"))]
+        "C06" | "C07" | "C17" => {
+            eprintln!("{id} needs the harness built with --features hooks (use ./check)");
+            2
+        }
         _ => {
             eprintln!("unknown property {id}");
             2
